@@ -1,12 +1,19 @@
 package props
 
 import (
+	"bytes"
 	"fmt"
+	"runtime"
+	"runtime/debug"
 	"sync"
+	"sync/atomic"
+	"time"
 	"unsafe"
 
+	"github.com/couchbase/nitro"
 	"github.com/couchbase/nitro/skiplist"
 
+	"nitroverif/internal/galloc"
 	"nitroverif/internal/rt"
 )
 
@@ -25,6 +32,10 @@ func runC04(c *rt.C) {
 	}
 	if c.Index >= 6+len(slMicros) && c.Index < 6+len(slMicros)+4 {
 		nodeListLifecycle(c, mem)
+		return
+	}
+	if c.Index >= 6+len(slMicros)+4 && c.Index < 6+len(slMicros)+12 {
+		c04ParkedAccessor(c, mem, (c.Index-(6+len(slMicros)+4))/2)
 		return
 	}
 	if c.Index < 6+len(slMicros) {
@@ -84,13 +95,13 @@ func init() {
 		ID: "C04", Level: "exploration",
 		Technique: "sanitizer-style runtime monitoring: MMU-enforced page-guard allocator and poison/quarantine allocator passed through Config.UseMemoryMgmt, exact shadow live-set, 'freed while still linked' walk on every free, reachable ⊆ live-set at quiescent checkpoints, held-node re-reads",
 		Rule: "user-managed memory only, alternating pageguard / poison. Two of three cases run the ownership engine (2-8 writers, 4-64 keys, 2-6 scanner goroutines with refresh rates {0,1,2,7} that hold nodes and re-read them, concurrent Visitors, snapshot churn closed in random/newest-first/oldest-last order from concurrent goroutines, GC() storms, hook and allocator perturbation); every third case runs the contention engine (2-8 writers on 1-8 shared keys, same-epoch and cross-epoch deletes of one node by several writers). " +
-			"Cases 16-19 chain nodes in the library's NodeList and delete one of them in its own epoch (only that node may be released). Cases 0-5 are deterministic rendezvous schedules (insert of a tall node parked before linking level k ‖ delete+flush of that node), cases 6-15 enumerate the insert/delete micro-scenarios of C13 under the serialized controller in user-managed memory (after every schedule nothing released may still be linked). A fault inside the guard region, a double/invalid free, damaged poison or canary, a node freed while reachable from the head at any level, or a linked node that is not a live block is a violation. evaluations = blocks freed under guard; distinct = workload configuration / scan-age tuples",
+			"Cases 20-27 park an accessor (Writer.GetNode, snapshot Iterator.Seek, Writer.Put2, Writer.Delete) inside the user-supplied key comparator right after it loaded a successor pointer, delete that successor (a current-epoch item, flushed at once) from another writer, and resume: the accessor must not touch released memory (hook-free). Cases 16-19 chain nodes in the library's NodeList and delete one of them in its own epoch (only that node may be released). Cases 0-5 are deterministic rendezvous schedules (insert of a tall node parked before linking level k ‖ delete+flush of that node), cases 6-15 enumerate the insert/delete micro-scenarios of C13 under the serialized controller in user-managed memory (after every schedule nothing released may still be linked). A fault inside the guard region, a double/invalid free, damaged poison or canary, a node freed while reachable from the head at any level, or a linked node that is not a live block is a violation. evaluations = blocks freed under guard; distinct = workload configuration / scan-age tuples",
 		Assumptions: []string{"a use after free is observed only if it happens while the block is still under guard (pageguard never reuses addresses; poison quarantines for the life of the child process)", "node handles are used by the harness only while it holds an accessor token or the item is undeleted"},
 		Cases: func(t string) int {
 			if t == "thorough" {
-				return 1216
+				return 1224
 			}
-			return 64
+			return 72
 		},
 		Batch:         func(t string) int { return 3 },
 		Procs:         16,
@@ -223,4 +234,117 @@ func raiseLevel(s *skiplist.Skiplist, lvl int) {
 			return 1
 		})
 	}
+}
+
+// ---------------------------------------------------------------------------
+// comparator-parked accessors (hook-free: the key comparator is user-supplied)
+//
+// Keys P < V < T. An accessor (lookup, insert, delete, snapshot-iterator seek) that walks towards T
+// is parked inside the key comparator while it compares P with its probe, i.e. after it has already
+// loaded P's successor V. Meanwhile V — inserted in the current epoch — is deleted by another
+// writer, which flushes it to the free workers. The accessor then resumes and steps onto V. With a
+// correct barrier V cannot be released before the accessor has left the structure.
+func c04ParkedAccessor(c *rt.C, mem string, api int) {
+	apiName := []string{"Writer.GetNode", "snapshot Iterator.Seek", "Writer.Put2", "Writer.Delete"}[api]
+	P, V, T := []byte("key-0005"), []byte("key-0006"), []byte("key-0007")
+	hits, trials := 0, 12
+	for trial := 0; trial < trials && !c.Failed(); trial++ {
+		var armed int32
+		parked := make(chan struct{})
+		resume := make(chan struct{})
+		var once sync.Once
+		cmp := func(a, b []byte) int {
+			if atomic.LoadInt32(&armed) == 1 && bytes.Equal(a, P) && bytes.HasPrefix(b, T) {
+				once.Do(func() {
+					close(parked)
+					<-resume
+				})
+			}
+			return bytes.Compare(a, b)
+		}
+		cfg := nitro.DefaultConfig()
+		cfg.SetKeyComparator(cmp)
+		m := galloc.Poison
+		if mem == "pageguard" {
+			m = galloc.PageGuard
+		}
+		a := galloc.New(m)
+		cfg.UseMemoryMgmt(a.Malloc, a.Free)
+		db := nitro.NewWithConfig(cfg)
+		w1, w2 := db.NewWriter(), db.NewWriter()
+		for i := 0; i < 12; i++ {
+			if i != 6 {
+				w1.Put([]byte(fmt.Sprintf("key-%04d", i)))
+			}
+		}
+		s1, _ := db.NewSnapshot()
+		w1.Put(V) // born in the current epoch: its delete is physical and flushes the node at once
+		type res struct {
+			fault interface{}
+		}
+		done := make(chan res, 1)
+		go func() {
+			debug.SetPanicOnFault(true)
+			defer func() { done <- res{recover()} }()
+			atomic.StoreInt32(&armed, 1)
+			switch api {
+			case 0:
+				w2.GetNode(T)
+			case 1:
+				it := s1.NewIterator()
+				it.Seek(T)
+				if it.Valid() {
+					_ = append([]byte(nil), it.Get()...)
+				}
+				it.Close()
+			case 2:
+				w2.Put2(append(append([]byte{}, T...), 'x')) // a new key right behind T
+			default:
+				w2.Delete(T)
+			}
+		}()
+		reached := false
+		select {
+		case <-parked:
+			reached = true
+		case r := <-done:
+			done <- r
+		}
+		if reached {
+			hits++
+			vNodeDeleted := w1.Delete(V)
+			// let the free worker run if it is allowed to
+			for i := 0; i < 200; i++ {
+				runtime.Gosched()
+				if fl, _ := db.VerifQueueLens(); fl == 0 && i > 50 {
+					break
+				}
+			}
+			time.Sleep(2 * time.Millisecond)
+			close(resume)
+			_ = vNodeDeleted
+		}
+		r := <-done
+		atomic.StoreInt32(&armed, 0)
+		c.Evals(1)
+		if r.fault != nil {
+			c.Violate("use-after-free/"+apiName, fmt.Sprintf("%s was parked inside the key comparator (after loading the successor of %q); the successor %q, inserted in the current epoch, was deleted by another writer meanwhile; on resuming, the accessor touched released memory: %v", apiName, P, V, r.fault),
+				map[string]interface{}{"api": apiName, "mem": mem, "trial": trial})
+			return
+		}
+		for _, v := range a.Violations() {
+			c.Violate("alloc-"+v.Kind, fmt.Sprintf("%s parked in the comparator: %+v", apiName, v), nil)
+		}
+		s1.Close()
+		db.Close()
+		if n := a.LiveCount(); n != 0 && !c.Failed() {
+			c.Inconclusive(fmt.Sprintf("C07's oracle: %d blocks live after Close", n))
+		}
+	}
+	c.Sig("parked-accessor/%s/mem=%s/reached=%v", apiName, mem, hits > 0)
+	c.Count("parked_accessor_trials_reaching_the_window", int64(hits))
+	if hits == 0 {
+		c.Inconclusive("the comparator window was never reached")
+	}
+	c.Sample(map[string]interface{}{"directed": "comparator-parked accessor", "api": apiName, "mem": mem, "trials": trials, "window_reached": hits})
 }
